@@ -7,7 +7,7 @@ from harness.core import Rng, gz, gq, glist, gopt, gnat, Dec, num_close
 
 PID = "C03"
 VO = ["theories/Metrics/BaseRates.vo", "theories/Metrics/BaseRates_proofs.vo", "theories/Metrics/Aggregates.vo",
-      "theories/Metrics/Aggregates_proofs.vo", "theories/Metrics/Fairness.vo", "theories/Metrics/Fairness_proofs.vo",
+      "theories/Metrics/Aggregates_proofs.vo", "theories/Metrics/Disagg.vo", "theories/Metrics/Fairness.vo", "theories/Metrics/Fairness_proofs.vo",
       "theories/Base/Flat.vo"]
 PROPS_FILES = ["props/C03.v"]
 TRANSLATORS = ["t_fairness", "t_labels", "t_ratio"]
